@@ -89,6 +89,28 @@ func contracts(c *vlib.Ctx, s *scen, shape string) {
 			s.sign()
 			return true
 		}
+	case "v2rev2":
+		fce, ok := existing()
+		if !ok {
+			return
+		}
+		r1 := fce.V2FileContract
+		r1.RevisionNumber = 1
+		r1.RenterPublicKey = k.PK("X") // the contract is handed to a new renter key
+		signContract(&r1, "R", "H")
+		r2 := r1
+		r2.RevisionNumber = 2
+		r2.RenterOutput.Value, r2.HostOutput.Value = cur(250000), cur(49)
+		s.v2 = []types.V2Transaction{
+			{FileContractRevisions: []types.V2FileContractRevision{{Parent: fce.Copy(), Revision: r1}}},
+			{FileContractRevisions: []types.V2FileContractRevision{{Parent: fce.Copy(), Revision: r2}}},
+		}
+		t := &s.v2[1]
+		rk := "X"
+		s.sign = func() { signContract(&t.FileContractRevisions[0].Revision, rk, "H") }
+		s.tamper["revision"] = func() bool { t.FileContractRevisions[0].Revision.MissedHostValue = cur(18); return true }
+		s.tamper["contract-sig-flip"] = func() bool { flip(&t.FileContractRevisions[0].Revision.HostSignature); return true }
+		s.tamper["stale-keys"] = func() bool { rk = "R"; s.sign(); return true } // signed by the keys the contract no longer has
 	case "v2renew":
 		fce, ok := existing()
 		if !ok {
